@@ -171,6 +171,21 @@ def lownum_cases():
     return out
 
 
+def udp_cases():
+    """A uv_udp_t (a watcher kind that owns and closes its descriptor) is closed while a dup of the
+    descriptor is kept open; the number is re-used by a new poll handle; then the old open file
+    description becomes ready through the dup's peer.  After uv_close nothing may be left in the
+    kernel for the old description.  (The udp socket itself is never made readable while watched.)"""
+    out = []
+    for ring in (1, 0):
+        for strict in (0, 1):
+            for stop in ("", "T0,1 ", "T0,1 R "):
+                for k2, m in (("s", 1), ("t", 9), ("e", 3)):
+                    out.append("%d %d ; O0,d V0 S0,1 R %sU0,1 Q0,0 R O0,%s I0 S1,%d R K1 R K1 R ; " % (ring, strict, stop, k2, m))
+                out.append("%d %d ; O0,d V0 S0,1 U0,1 R %sQ0,0 O0,d V0 S1,1 R K1 R R ; " % (ring, strict, stop))
+    return out
+
+
 def stale_case(rng, ring):
     """Stop, then close, while a dup keeps the open file description alive; the number is
     re-used by a new handle; then the OLD description becomes ready."""
@@ -443,6 +458,45 @@ def monitor_tokens(toks):
     return complaints[0]
 
 
+def fullbatch_check(chk, exe):
+    """1024 events in one epoll_pwait batch (harness/c14_fullbatch.c; the re-poll inside uv__io_poll is
+    not part of the model).  Judged on the implementation's trace alone: every epoll_pwait of the
+    loop that may block (timeout != 0) must find watcher_queue flushed and the kernel interest set
+    equal to the registry; the handle started from a callback of the full batch must be called."""
+    for ring in (1, 0):
+        out, rc, err = vf.run_lines([exe], [str(ring)], timeout=120)
+        line = out[0] if out else ""
+        rep = {"kind": "monitor", "obligation": "kernel in sync at every blocking epoll_pwait (full batch)",
+               "case": "c14_fullbatch ring=%d" % ring, "impl": line}
+        if line.startswith("SKIP") or not line:
+            chk.assumptions.append("full-batch scenario skipped: %s" % (line or "no output"))
+            print("note: C14 full-batch scenario skipped (%s)" % (line or "harness gave no output"))
+            continue
+        waits = [[int(v) for v in t[1:].split(",")] for t in line.split() if t[0] == "W"]
+        chk.cov["fullbatch_epoll_pwait_calls"] = chk.cov.get("fullbatch_epoll_pwait_calls", 0) + len(waits)
+        if not any(w[3] == 1024 for w in waits):
+            chk.assumptions.append("full-batch scenario: no batch of 1024 events was returned")
+            print("note: C14 full-batch scenario did not get a batch of 1024 events: %s" % line[:200])
+            continue
+        for t, wqe, sync, n in waits:
+            if t != 0 and (wqe != 1 or sync != 1):
+                chk.violation("full batch: epoll_pwait called with timeout %d (the loop may block) while %s"
+                              % (t, "loop->watcher_queue is not flushed: a handle started by a callback of the "
+                                 "batch is not registered in the kernel" if wqe != 1 else
+                                 "the kernel interest set differs from libuv's registry"), rep, found_input=True)
+                break
+        else:
+            m = re.search(r"cb=(\d+) hx=(\d+) ring=(\d)", line)
+            if not m or int(m.group(1)) != 1024 or int(m.group(2)) != 1:
+                chk.violation("full batch: callbacks %s (expected cb=1024 hx=1: every ready handle once, the handle "
+                              "started from a callback of the batch in the next poll phase)" % (m.group(0) if m else "?"),
+                              rep, found_input=True)
+            elif int(m.group(3)) != ring:
+                print("harness error: control ring configuration not as requested in the full-batch scenario")
+                chk.scratch.cleanup()
+                sys.exit(2)
+
+
 def run_harness(exe, cases, shards=8):
     """Run the harness (one child process per case); a case on which it dies (abort() inside
     libuv, a crash, a hang) yields None and the run continues behind it."""
@@ -473,6 +527,8 @@ def main():
         lib = vf.build_libuv(chk.scratch, "ndebug")
         harness = vf.cc_harness(chk.scratch, "c14_poll", ["c14_poll.c"], lib=lib,
                                 wraps=["epoll_pwait", "syscall"])
+        hfull = vf.cc_harness(chk.scratch, "c14_fullbatch", ["c14_fullbatch.c"], lib=lib,
+                              wraps=["epoll_pwait", "syscall"])
         model = vf.model_bin("C14")
     except vf.BuildError as e:
         chk.violation("build failed: %s" % str(e)[:300], {"kind": "build", "log": str(e)}, found_input=False)
@@ -509,8 +565,10 @@ def main():
                       lambda cc, a: reason)
         chk.finish(rule="replay of one stored case")
 
+    fullbatch_check(chk, hfull)
+
     n = 120000 if thorough else 2400
-    cases = list(FIXED) + corpus + sweep_cases() + notify_cases() + foreign_cases() + lownum_cases()
+    cases = list(FIXED) + corpus + sweep_cases() + notify_cases() + foreign_cases() + lownum_cases() + udp_cases()
     for i in range(1200 if thorough else 120):
         cases.append(stale_case(chk.rng, i % 2))
     for i in range(n):
